@@ -441,7 +441,8 @@ func WriteFile(n string, b []byte, m os.FileMode) error {
 func Rename(a, b string) error {
 	switch step("rename", a, filepath.Clean(b), true) {
 	case doFail:
-		return ErrInjected
+		// the kernel's error type for a rename
+		return &os.LinkError{Op: "rename", Old: a, New: b, Err: syscall.EIO}
 	case doSkip:
 		return nil
 	case doDieAfter:
